@@ -18,18 +18,28 @@ use crate::vmh;
 use serde_json::{json, Value};
 use std::sync::atomic::{AtomicBool, AtomicU64, Ordering};
 use steel::gc::unsafe_erased_pointers::CustomReference;
-use steel::steel_vm::register_fn::RegisterFn;
+use steel::steel_vm::register_fn::{MarkerWrapper7, RegisterFn};
 
 pub struct C20;
 
 pub struct Probe {
     value: isize,
     canary: u64,
+    /// which lending window this object belongs to (0 = the round's object,
+    /// 1 = the object of a lending call nested inside the first one)
+    id: usize,
+    gauge: Gauge,
+}
+
+/// A part of the probe that a method hands out as a reference of its own.
+pub struct Gauge {
+    level: isize,
+    owner: usize,
 }
 
 const CANARY: u64 = 0xC0FF_EE00_C0FF_EE00;
 
-static LENT: AtomicBool = AtomicBool::new(false);
+static LENT: [AtomicBool; 2] = [AtomicBool::new(false), AtomicBool::new(false)];
 static USES_IN_WINDOW: AtomicU64 = AtomicU64::new(0);
 
 fn outside_window(what: &str, when: &str) -> ! {
@@ -41,7 +51,7 @@ fn outside_window(what: &str, when: &str) -> ! {
 
 impl Probe {
     fn check(&self, what: &str, when: &str) {
-        if !LENT.load(Ordering::SeqCst) {
+        if !LENT[self.id].load(Ordering::SeqCst) {
             outside_window(what, when);
         }
         if self.canary != CANARY {
@@ -67,12 +77,37 @@ impl Probe {
     }
 }
 
+impl Probe {
+    fn new(value: isize, id: usize) -> Probe {
+        Probe { value, canary: CANARY, id, gauge: Gauge { level: value + 7, owner: id } }
+    }
+    pub fn gauge(&mut self) -> &mut Gauge {
+        self.check("probe-gauge", "at-entry");
+        USES_IN_WINDOW.fetch_add(1, Ordering::SeqCst);
+        &mut self.gauge
+    }
+}
+
+impl Gauge {
+    pub fn read(&mut self) -> isize {
+        if !LENT[self.owner].load(Ordering::SeqCst) {
+            outside_window("gauge-read", "at-entry");
+        }
+        USES_IN_WINDOW.fetch_add(1, Ordering::SeqCst);
+        self.level
+    }
+}
+
 impl CustomReference for Probe {}
 steel::custom_reference!(Probe);
+impl CustomReference for Gauge {}
+steel::custom_reference!(Gauge);
 
 const PRELUDE: &str = r#"
 (define *ext* #f)
+(define *inner* #f)
 (define stash (box #f))
+(define stash2 (box #f))
 (define stash-k (box #f))
 (struct holder (ref) #:mutable)
 (define chs (channels/new))
@@ -95,6 +130,8 @@ const STASHES: &[(&str, &str, &str)] = &[
     ("channel", "(channel/send tx *ext*)", "(probe-get (channel/try-recv rx))"),
     ("nested-closure-in-list", "(set-box! stash (list (let ((r *ext*)) (lambda () (lambda () (probe-inc r))))))", "(((car (unbox stash))))"),
     ("define-global", "(define kept *ext*)", "(probe-get kept)"),
+    ("sub-reference", "(set-box! stash (probe-gauge *ext*))", "(gauge-read (unbox stash))"),
+    ("object-and-sub-reference", "(set-box! stash (list *ext* (probe-gauge *ext*)))", "(list (gauge-read (cadr (unbox stash))))"),
 ];
 
 fn gen_workload(rng: &mut Rng) -> Value {
@@ -103,10 +140,12 @@ fn gen_workload(rng: &mut Rng) -> Value {
     let mut rs = Vec::new();
     for _ in 0..rounds {
         let stash = rng.below(STASHES.len() as u64);
-        let fault = *rng.pick(&["none", "none", "interrupt", "script-error", "thread"]);
+        let fault = *rng.pick(&["none", "none", "interrupt", "script-error", "thread", "host-panic", "nested"]);
         let k = rng.range(0, 120);
         let uses = rng.range(1, 4);
-        rs.push(json!({"stash": stash, "fault": fault, "k": k, "uses": uses, "api": rng.below(2)}));
+        // how often the script takes (and drops) a reference to a part of the object
+        let subrefs = if rng.chance(1, 2) { rng.range(1, 3) } else { 0 };
+        rs.push(json!({"stash": stash, "fault": fault, "k": k, "uses": uses, "api": rng.below(2), "subrefs": subrefs}));
     }
     json!({"jit": jit, "rounds": rs, "gc": [*rng.pick(&[0u64, 1]), 8]})
 }
@@ -165,6 +204,9 @@ impl Scenario for C20 {
         vmh::set_stale_is_violation(false);
         engine.register_fn("probe-get", Probe::get);
         engine.register_fn("probe-inc", Probe::inc);
+        engine.register_fn("gauge-read", Gauge::read);
+        // a method that hands out a reference to a part of the lent object
+        RegisterFn::<_, MarkerWrapper7<(Probe, Gauge, Gauge, Probe)>, Gauge>::register_fn(&mut engine, "probe-gauge", Probe::gauge);
         vmh::set_context("prelude");
         if let Err(e) = vmh::eval(&mut engine, PRELUDE) {
             report::harness_error(format!("prelude failed: {}", e));
@@ -176,10 +218,13 @@ impl Scenario for C20 {
             let fault = r["fault"].as_str().unwrap_or("none");
             let uses = r["uses"].as_u64().unwrap_or(1);
             vmh::set_context(&format!("{}/{}/{}", tier, sname, fault));
-            let mut probe = Probe { value: 100 * (ri as isize + 1), canary: CANARY };
+            let mut probe = Probe::new(100 * (ri as isize + 1), 0);
             let mut body = String::new();
             for _ in 0..uses {
                 body.push_str("(probe-inc *ext*)\n");
+            }
+            for _ in 0..r["subrefs"].as_u64().unwrap_or(0) {
+                body.push_str("(gauge-read (probe-gauge *ext*))\n");
             }
             body.push_str(stash_code);
             body.push('\n');
@@ -191,7 +236,11 @@ impl Scenario for C20 {
                 }
                 _ => {}
             }
-            body.push_str("(probe-get *ext*)\n");
+            // a stashed reference to a part of the object keeps the object borrowed
+            let holds_part = sname.contains("sub-reference");
+            if !holds_part {
+                body.push_str("(probe-get *ext*)\n");
+            }
             let before = USES_IN_WINDOW.load(Ordering::SeqCst);
             vmh::MAIN_DISPATCHES.store(0, Ordering::SeqCst);
             if fault == "interrupt" {
@@ -201,8 +250,65 @@ impl Scenario for C20 {
                 vmh::set_yield_at_dispatch(true);
             }
             // ---- the lending window
-            LENT.store(true, Ordering::SeqCst);
-            let res = if r["api"].as_u64().unwrap_or(0) == 0 {
+            LENT[0].store(true, Ordering::SeqCst);
+            let res = if fault == "host-panic" {
+                // the host's own code inside the lending call panics after the
+                // script ran; the embedder catches the panic and carries on
+                let body2 = body.clone();
+                let caught = std::panic::catch_unwind(std::panic::AssertUnwindSafe(|| {
+                    engine.run_thunk_with_reference::<Probe, Probe>(&mut probe, move |engine, value| {
+                        engine.update_value("*ext*", value);
+                        let _ = engine.compile_and_run_raw_program(body2.clone());
+                        report::fault("host-panic-inside-lending-call");
+                        // not `panic!`: the harness's panic hook treats a panic as a finding
+                        std::panic::resume_unwind(Box::new("injected host panic"))
+                    })
+                }));
+                match caught {
+                    Ok(x) => x,
+                    Err(_) => Err(steel::rerrs::SteelErr::new(steel::rerrs::ErrorKind::Generic, "the host panicked inside the lending call".to_string())),
+                }
+            } else if fault == "nested" {
+                // a second object is lent from inside the first lending call
+                let body2 = body.clone();
+                let mut inner = Probe::new(-5, 1);
+                let tier2 = tier;
+                engine.run_thunk_with_reference::<Probe, Probe>(&mut probe, |engine, value| {
+                    engine.update_value("*ext*", value);
+                    let r0 = engine.compile_and_run_raw_program(body2.clone());
+                    LENT[1].store(true, Ordering::SeqCst);
+                    let r1 = engine.run_with_reference::<Probe, Probe>(
+                        &mut inner,
+                        "*inner*",
+                        "(probe-inc *inner*)\n(set-box! stash2 *inner*)\n(probe-get *inner*)",
+                    );
+                    LENT[1].store(false, Ordering::SeqCst);
+                    inner.canary = 0xDEAD;
+                    report::fault("nested-lending-call");
+                    if let Err(e) = &r1 {
+                        report::violation(
+                            &format!("C20/{}/lending-call-failed/nested-inner", tier2),
+                            format!("the nested lending call failed: {}", e),
+                        );
+                    }
+                    // still inside the outer window: the inner reference is dead, the outer one is not
+                    if let Ok(v) = engine.compile_and_run_raw_program("(probe-get (unbox stash2))") {
+                        report::violation(
+                            &format!("C20/{}/use-after-lending-returned-a-value/nested-inner", tier2),
+                            format!("(probe-get (unbox stash2)) evaluated to {:?} after the nested lending call had returned", v.last()),
+                        );
+                    }
+                    let outer_alive = if holds_part { Ok(Vec::new()) } else { engine.compile_and_run_raw_program("(probe-get *ext*)") };
+                    if let Err(e) = outer_alive {
+                        report::violation(
+                            &format!("C20/{}/lent-reference-dead-inside-its-window/nested-outer", tier2),
+                            format!("the outer object is still lent, but (probe-get *ext*) after the nested lending call failed: {}", e),
+                        );
+                    }
+                    engine.update_value("*ext*", steel::SteelVal::Void);
+                    r0.map(|x| x.into_iter().last().unwrap_or(steel::SteelVal::Void))
+                })
+            } else if r["api"].as_u64().unwrap_or(0) == 0 {
                 engine.run_with_reference::<Probe, Probe>(&mut probe, "*ext*", &body)
             } else {
                 let body2 = body.clone();
@@ -214,7 +320,7 @@ impl Scenario for C20 {
                 })
             };
             sched::yield_point_ex(sites::H_LEND_END, 0, true);
-            LENT.store(false, Ordering::SeqCst);
+            LENT[0].store(false, Ordering::SeqCst);
             // ---- the host may do anything with the object now
             probe.canary = 0xDEAD;
             vmh::set_interrupt_at(None);
@@ -224,7 +330,7 @@ impl Scenario for C20 {
                 nontrivial = true;
             }
             match (fault, &res) {
-                ("none", Err(e)) | ("thread", Err(e)) => report::violation(
+                ("none", Err(e)) | ("thread", Err(e)) | ("nested", Err(e)) => report::violation(
                     &format!("C20/{}/lending-call-failed", tier),
                     format!("round {} ({}): the lending call failed: {}", ri, sname, e),
                 ),
@@ -262,7 +368,7 @@ impl Scenario for C20 {
                 }
             }
             // drain what the round left behind
-            let _ = vmh::eval(&mut engine, "(set-box! stash #f)");
+            let _ = vmh::eval(&mut engine, "(set-box! stash #f)\n(set-box! stash2 #f)");
             let st = engine.verif_stack_state();
             if st.stack != 0 || st.frames != 0 {
                 report::violation(&format!("C20/{}/stack-residue", tier), format!("round {}: {:?}", ri, st));
@@ -285,7 +391,7 @@ impl Scenario for C20 {
     }
 
     fn rule(&self) -> String {
-        format!("each evaluation = one forked run of 1-4 lending rounds on one engine: a host object is lent through run_with_reference or run_thunk_with_reference; the script uses it 1-4 times, stashes the reference in one of {} places (box held by a global, closure, list, hash map, mutable vector, struct field, a let variable captured by a continuation, channel, nested closures, a new global definition), optionally fails (script error, or an interrupt at a seeded dispatch step of the lending call) or starts a thread that keeps calling methods of the reference while the lending call returns (the scheduler places the end of the call against the method's entry/exit); afterwards the stashed reference is used; oracle: no method body runs outside the lending window (checked at entry and exit, the object is scribbled after the window), every use after the window is an error, stacks empty, the next round's lend works; forced collections at rate {{0,1/8}}, JIT on/off; non-trivial = the object was used inside the window", STASHES.len())
+        format!("each evaluation = one forked run of 1-4 lending rounds on one engine: a host object is lent through run_with_reference or run_thunk_with_reference; the script uses it 1-4 times, stashes the reference in one of {} places (box held by a global, closure, list, hash map, mutable vector, struct field, a let variable captured by a continuation, channel, nested closures, a new global definition, a reference to a part of the object obtained from a method), takes and drops 0-3 such part references, optionally fails (script error, an interrupt at a seeded dispatch step of the lending call, or a panic of the host's own code inside the lending call that the embedder catches), lends a second object from inside the first lending call (whose stashed reference must be dead, and the outer one alive, as soon as the inner call has returned) or starts a thread that keeps calling methods of the reference while the lending call returns (the scheduler places the end of the call against the method's entry/exit); afterwards the stashed reference is used; oracle: no method body runs outside the lending window (checked at entry and exit, the object is scribbled after the window), every use after the window is an error, stacks empty, the next round's lend works; forced collections at rate {{0,1/8}}, JIT on/off; non-trivial = the object was used inside the window", STASHES.len())
     }
     fn assumptions(&self) -> Vec<String> {
         vec![
